@@ -118,6 +118,117 @@ theorem setDemand_after_read : ∀ (s : Stack) (v : ERat), setDemand (getDemand 
       simp only [getDemand]
       split <;> cases v <;> simp [setDemand, setDemand_after_read s, read_keeps_sua]
 
+/-! ### every stack, every history -/
+
+/-- the Loggers a demand write reaches, top-down: those above the first `Buffer` (which stores
+the write instead of forwarding it) -/
+def loggersReached : Stack → List Nat
+  | .base _ => []
+  | .plain s => loggersReached s
+  | .logger i s => i :: loggersReached s
+  | .std _ _ s => loggersReached s
+  | .buffer _ _ => []
+
+/-- **one record per Logger per write, outermost Logger first, in any stack**: whatever
+Standardisers, plain decorators and Buffers lie in between, a demand write makes exactly the
+Loggers it reaches emit, each once, in top-down order - never two records, never a skipped one -/
+theorem records_are_loggers_reached : ∀ (s : Stack) (v : ERat),
+    (setDemand s v).2.map (·.logger) = loggersReached s
+  | .base _, _ => rfl
+  | .plain s, v => by simp [setDemand, loggersReached, records_are_loggers_reached s v]
+  | .logger i s, v => by simp [setDemand, loggersReached, records_are_loggers_reached s v]
+  | .std p st s, v => by
+      cases v <;> simp [setDemand, loggersReached, records_are_loggers_reached s]
+  | .buffer _ _, _ => by simp [setDemand, loggersReached]
+
+/-- reads and writes leave the set of reached Loggers alone (a stack does not restructure) -/
+theorem read_keeps_loggers : ∀ s : Stack, loggersReached (getDemand s).1 = loggersReached s
+  | .base _ => rfl
+  | .plain s => by simp [getDemand, loggersReached, read_keeps_loggers s]
+  | .logger _ s => by simp [getDemand, loggersReached, read_keeps_loggers s]
+  | .std p st s => by
+      simp only [getDemand]
+      split <;> simp [loggersReached, read_keeps_loggers s]
+  | .buffer _ _ => by simp [getDemand, loggersReached]
+
+theorem write_keeps_loggers : ∀ (s : Stack) (v : ERat),
+    loggersReached (setDemand s v).1 = loggersReached s
+  | .base _, _ => rfl
+  | .plain s, v => by simp [setDemand, loggersReached, write_keeps_loggers s v]
+  | .logger _ s, v => by simp [setDemand, loggersReached, write_keeps_loggers s v]
+  | .std p st s, v => by
+      cases v <;> simp [setDemand, loggersReached, write_keeps_loggers s]
+  | .buffer _ _, _ => by simp [setDemand, loggersReached]
+
+theorem setBase_keeps_loggers (f : Pool → Pool) : ∀ s : Stack,
+    loggersReached (setBase f s) = loggersReached s
+  | .base _ => rfl
+  | .plain s => by simp [setBase, loggersReached, setBase_keeps_loggers f s]
+  | .logger _ s => by simp [setBase, loggersReached, setBase_keeps_loggers f s]
+  | .std _ _ s => by simp [setBase, loggersReached, setBase_keeps_loggers f s]
+  | .buffer _ _ => by simp [setBase, loggersReached]
+
+theorem setBase_sua (a : Attr) (f : Pool → Pool) : ∀ s : Stack,
+    getAttr a (setBase f s) = (f s.basePool).attr a
+  | .base _ => rfl
+  | .plain s => by simp [setBase, getAttr, Stack.basePool, setBase_sua a f s]
+  | .logger _ s => by simp [setBase, getAttr, Stack.basePool, setBase_sua a f s]
+  | .std _ _ s => by simp [setBase, getAttr, Stack.basePool, setBase_sua a f s]
+  | .buffer _ s => by simp [setBase, getAttr, Stack.basePool, setBase_sua a f s]
+
+/-- an operation of a history: a demand read, a demand write, a change of the underlying
+pool's supply / utilisation / allocation -/
+inductive Op
+  | read
+  | write (v : ERat)
+  | world (supply util alloc : Rat)
+
+def world (su ut al : Rat) (p : Pool) : Pool := { p with supply := su, util := ut, alloc := al }
+
+def applyOp (s : Stack) : Op → Stack
+  | .read => (getDemand s).1
+  | .write v => (setDemand s v).1
+  | .world su ut al => setBase (world su ut al) s
+
+/-- what the pool itself last reported, over a history -/
+def lastWorld (a : Attr) (init : Rat) : List Op → Rat
+  | [] => init
+  | .world su ut al :: r => lastWorld a (match a with | .supply => su | .util => ut | .alloc => al) r
+  | _ :: r => lastWorld a init r
+
+/-- **transparency over whole histories**: after any sequence of demand reads, demand writes and
+changes of the underlying pool, a stack of any depth and order reports exactly the supply /
+utilisation / allocation the underlying pool reported last - no decorator caches, delays or
+rewrites them -/
+theorem history_sua (a : Attr) : ∀ (ops : List Op) (s : Stack),
+    getAttr a (ops.foldl applyOp s) = lastWorld a (getAttr a s) ops
+  | [], _ => rfl
+  | .read :: r, s => by
+      simp only [List.foldl_cons, applyOp, lastWorld]
+      rw [history_sua a r, read_keeps_sua]
+  | .write v :: r, s => by
+      simp only [List.foldl_cons, applyOp, lastWorld]
+      rw [history_sua a r, write_keeps_sua]
+  | .world su ut al :: r, s => by
+      simp only [List.foldl_cons, applyOp, lastWorld]
+      rw [history_sua a r, setBase_sua]
+      cases a <;> rfl
+
+/-- … and at every point of such a history a further demand write makes exactly the Loggers of
+the original stack above its first Buffer emit, each once, outermost first -/
+theorem history_records (ops : List Op) (s : Stack) (v : ERat) :
+    (setDemand (ops.foldl applyOp s) v).2.map (·.logger) = loggersReached s := by
+  rw [records_are_loggers_reached]
+  induction ops generalizing s with
+  | nil => rfl
+  | cons o r ih =>
+    simp only [List.foldl_cons]
+    rw [ih]
+    cases o with
+    | read => exact read_keeps_loggers s
+    | write v => exact write_keeps_loggers s v
+    | world su ut al => exact setBase_keeps_loggers _ s
+
 /-! ### message templates -/
 
 /-- a template that names an unknown field is rejected when the Logger is constructed -/
@@ -161,6 +272,9 @@ def exStack : Stack := .logger 2 (.plain (.logger 1 (.base exPool)))
 example : transparent exStack = true ∧ numLoggers exStack = 2 := by decide
 example : (setDemand exStack (fin 7)).2.map (·.logger) = [2, 1] := by decide +kernel
 def exKnown : List (List Char) := ["value".toList, "demand".toList, "target".toList]
+def exDeep : Stack := .logger 3 (.std { min := .ninf, max := .pinf, g := 1, backlog := .pinf, surplus := .pinf } (fin 0) (.logger 2 (.buffer (fin 1) (.logger 1 (.base exPool)))))
+example : loggersReached exDeep = [3, 2] := by decide +kernel
+example : getAttr .supply ([Op.write (fin 9), .world 20 1 1, .read].foldl applyOp exDeep) = 20 := by decide +kernel
 example : templateOK exKnown "d = %(value)s [%(demand).2f] %%".toList = true := by decide +kernel
 example : templateOK exKnown "d = %(valu)s".toList = false := by decide +kernel
 
